@@ -26,9 +26,12 @@ and the original strings it was built from,
 
 Hypothesis: the token ranges tile the texts with non-empty tokens (`Tiling`, the contract of the tokenizer; C06
 proves it for the model's tokenizers `tokenize*`).
-Not covered by this theorem: `diff_slices` ("and slices": the helper on caller-provided slices is `capture_diff_slices`
-followed by `iter_slices`, i.e. C02 + C13(e); no separate model function exists); the external segmenters
-(unicode words, graphemes) enter only through the `Tiling` hypothesis. -/
+(e) "and slices" [`utilsDiffSlices` = `similar::utils::diff_slices`: `capture_diff_slices` then `iter_slices` of every op,
+    on ANY two item sequences seen through an in-bounds `Env`: it returns, no slice is empty, the slices expand to
+    exactly the items of the captured ops (`C13.sliceItems`), whose old / new indices are `0 … n-1` / `0 … m-1` in
+    order — the non-Insert slices cut the old slice, the non-Delete slices the new one, into consecutive pieces].
+Not covered by this theorem: the external segmenters (unicode words, graphemes) enter only through the `Tiling`
+hypothesis. -/
 theorem C17_statement (alg : Alg) (bo bn : Bytes) (ro rn : List (Nat × Nat)) (w : World)
     (hto : Tiling ro bo.length) (htn : Tiling rn bn.length) :
     -- the text diff, then (a), (b), (c)
@@ -61,10 +64,18 @@ theorem C17_statement (alg : Alg) (bo bn : Bytes) (ro rn : List (Nat × Nat)) (w
       (∀ x ∈ res, x.2 ≠ []) ∧
       ((res.filter (·.1 != .insert)).map (·.2)).flatten = bo ∧
       ((res.filter (·.1 != .delete)).map (·.2)).flatten = bn ∧
-      res.map (·.1) = (allChanges ops).map (·.tag)) := by
+      res.map (·.1) = (allChanges ops).map (·.tag)) ∧
+    -- (e) slices
+    (∀ (E : Env) (n m : Nat), RangesInBounds E 0 n 0 m →
+      ∃ ops w', captureDiff alg E false 0 n 0 m w = .ok (ops, w') ∧ Walk (eqB E) 0 0 ops n m ∧
+        utilsDiffSlices alg E n m w = .ok (ops.flatMap iterSlices) ∧
+        (∀ s ∈ ops.flatMap iterSlices, s.2.2.1 < s.2.2.2) ∧
+        (ops.flatMap iterSlices).flatMap C13.sliceItems = (allChanges ops).map (fun c => (c.tag, c.fromNew, c.idx)) ∧
+        (allChanges ops).filterMap (·.oldIndex) = List.range n ∧
+        (allChanges ops).filterMap (·.newIndex) = List.range m) := by
   have hlo : (lens bo ro).length = ro.length := by simp [lens]
   have hln : (lens bn rn).length = rn.length := by simp [lens]
-  refine ⟨?_, slice_tokens, ?_, ?_⟩
+  refine ⟨?_, slice_tokens, ?_, ?_, fun E n m hr => SliceHelper.utilsDiffSlices_total alg E n m w hr⟩
   · intro repair
     obtain ⟨ops, w', h, hw⟩ := textDiffOps_total alg repair (tokens bo ro) (tokens bn rn) w
     have hw1 : Walk (eqB (Env.ofTokens (tokens bo ro) (tokens bn rn))) 0 0 ops ro.length rn.length := by
@@ -100,6 +111,10 @@ example : ∀ alg : Alg, utilsDiffRemap alg [97, 98, 32, 99] [97, 98, 32, 100] [
   intro alg; cases alg <;> rfl
 example : ∀ alg : Alg, utilsDiffLines alg [97, 98, 32, 99] [97, 98, 32, 100] [(0, 2), (2, 3), (3, 4)] [(0, 2), (2, 3), (3, 4)] {} =
     .ok [(.equal, [97, 98]), (.equal, [32]), (.delete, [99]), (.insert, [100])] := by
+  intro alg; cases alg <;> rfl
+
+example : ∀ alg : Alg, utilsDiffSlices alg (Env.ofSeqs #[0, 1, 2, 3] #[0, 1, 4, 3]) 4 4 {} =
+    .ok [(.equal, false, 0, 2), (.delete, false, 2, 3), (.insert, true, 2, 3), (.equal, false, 3, 4)] := by
   intro alg; cases alg <;> rfl
 
 end SimilarVerif.Headline
